@@ -557,7 +557,8 @@ def run(ctx):
         res['range'] = r
 
     def m_cond():
-        r = ctx.tlc('MC_StaticRoute', 'MC_StaticRouteCond.cfg', coverage=True, workers=4, timeout=600)
+        r = ctx.tlc('MC_StaticRoute', 'MC_StaticRouteCond.cfg' if not q else 'MC_StaticRouteCondQ.cfg', coverage=True,
+                    workers=4, timeout=600)
         ctx.require_coverage(r, ['Submit', 'OpenRequested', 'OpenFallback', 'OpenMiss', 'BadDate', 'NotModified304',
                                  'Modified', 'RangeFull', 'RangePartial', 'RangeBad'])
         res['cond'] = r
@@ -603,6 +604,7 @@ def run(ctx):
     background(m_range)
     background(m_cond)
     background(m_wide)
+    background(m_hist)
 
     def wait(key):
         while key not in res:
@@ -616,7 +618,6 @@ def run(ctx):
     world = None
     try:
         r = wait('range')
-        background(m_hist)
         background(m_more)           # off the critical path: started once the first export is in
         background(m_wrong)
         fs = [j for j in r.json if j.get('t') == 'fs']
@@ -667,7 +668,7 @@ def run(ctx):
         rw = wait('wide')
         path_cases = list({digest(j['c']): j for j in rw.json if j.get('t') == 'case'}.values())
         ctx.progress('wide model done (%d states, %d cases)' % (rw.distinct, len(path_cases)))
-        replay_cases(path_cases, ctx.pick(6, 5), 'paths')
+        replay_cases(path_cases, ctx.pick(8, 5), 'paths')
         ctx.samples = ctx.samples[:4]
         ctx.extra['spec_cases_replayed'] = {'range_ims': len(range_cases), 'conditional_x_zones_x_clocks': len(cond_cases),
                                             'paths': len(path_cases)}
@@ -697,6 +698,8 @@ def run(ctx):
         rh = wait('hist')
         hists = list({digest(j['steps']): j for j in rh.json if j.get('t') == 'hist'}.values())
         hist_bad = []
+        if q:
+            hists = hists[ctx.seed % 2::2]        # quick: every second specification history, by seed
         for i, j in enumerate(hists):
             for iface in (('wsgi', 'asgi') if i % ctx.pick(8, 1) == 0 else ('wsgi',)):
                 out, vs = run_history(j['steps'], iface)
@@ -728,7 +731,7 @@ def run(ctx):
         ctx.extra['histories'] = {'spec': len(hists), 'random': nh, 'random_distinct': len(hitems)}
 
         # ---- leg B: random requests beyond the bound, judged by TLC ----------------------------------
-        nb = ctx.pick(14000, 220000)
+        nb = ctx.pick(12000, 200000)
         groups = {}
         zone_names = sorted(world.zones)
         for i in range(nb):
